@@ -417,6 +417,9 @@ def main(harness_name, argv=None):
         harness_errors.append("no path reached the obligations")
     if crashed:
         harness_errors.append(f"{crashed} job(s) crashed")
+    for kind in getattr(H, "ABORT_IS_ERROR", ()):
+        if aborted.get(kind):
+            harness_errors.append(f"{aborted[kind]} path(s) aborted ({kind}): part of the code is outside the model, result inconclusive")
     if not pre.get("ok", True):
         harness_errors.append("prechecks (stub validation) failed: " + "; ".join(str(i) for i in pre.get("items", []) if not i.get("ok", True)))
     if nonrepro and not violations:
